@@ -194,6 +194,24 @@ pub fn check_unsew_must_succeed(pre: &State, op: &Op, err: &str) -> Vec<Finding>
     // a user attribute law rejecting (injected or natural) legitimately fails the call; the
     // statement speaks about meshes that are fully embedded, i.e. about coordinates
     if ["injected failure", "harness attribute", "\"Wv\"", "\"We\"", "\"Wf\"", "\"Tv\"", "\"Te\"", "\"Tf\"", "conflicting tags"].iter().any(|p| err.contains(p)) {
+        // ... unless no law can have rejected: a 3-unsew splits exactly one face cell, whose value
+        // sits under the smaller of the two face identifiers; when it is there and the law splits
+        // it, a "split" failure naming a face-bound kind is the implementation's, not the law's
+        if *i == 3 && !err.contains("injected failure") && err.contains("split") {
+            for (k, name) in [(K_WF, "\"Wf\""), (K_TF, "\"Tf\"")] {
+                if err.contains(name) && mask_has(pre.kinds, k) {
+                    let pf = pre.partition(2);
+                    let (fl, fr) = (pf[*l as usize], pf[pre.b(3, *l) as usize]);
+                    // (the model's face of a glued pair is the union; its identifier the smaller one)
+                    let id = fl.min(fr);
+                    if let Some(v) = pre.attrs[k][id as usize] {
+                        if law_split(k, v).is_ok() {
+                            return vec![fnd("C05", "unsew-failed-although-no-law-rejects", format!("{op:?} on a fully embedded mesh with closed faces returned {err}, but the glued face carries {v} under its identifier {id} and the law splits that value"))];
+                        }
+                    }
+                }
+            }
+        }
         return vec![];
     }
     vec![fnd("C05", "unsew-failed-on-embedded-mesh", format!("{op:?} on a fully embedded mesh with closed faces, beta{i}({l}) = {} != null, returned {err}", pre.b(*i, *l)))]
